@@ -143,6 +143,14 @@ def make_dataset(recipe, winds=True):
     da = xr.DataArray(arr, dims=names, coords=coords, name="efth")
     if not recipe.get("spec_last", True) and lead_names:
         da = da.transpose(*(spec_names + lead_names)).copy()
+    if recipe.get("dir_first") and nd > 0:
+        # direction stored ahead of frequency (a legal dims order in the wavespectra convention)
+        order = [d for d in da.dims if d not in ("freq", "dir")]
+        pos = list(da.dims).index("freq")
+        order = list(da.dims)
+        i, j = order.index("freq"), order.index("dir")
+        order[i], order[j] = order[j], order[i]
+        da = da.transpose(*order).copy()
     ds = da.to_dataset()
     rng = np.random.default_rng(int(recipe.get("data", {}).get("seed", 0)) + 7919)
     if "site" in lead_names:
@@ -155,6 +163,21 @@ def make_dataset(recipe, winds=True):
         ds["wspd"] = (lead_names, np.round(rng.uniform(3, 25, shp), 2).astype(dtype))
         ds["wdir"] = (lead_names, np.round(rng.uniform(0, 360, shp), 1).astype(dtype))
         ds["dpt"] = (lead_names, np.round(rng.uniform(8, 400, shp), 1).astype(dtype))
+    if recipe.get("std_attrs"):
+        # attributes as the library's readers put them on datasets (static table, not a library call)
+        std = {
+            "efth": {"standard_name": "sea_surface_wave_directional_variance_spectral_density", "units": "m2 s degree-1"},
+            "freq": {"standard_name": "sea_surface_wave_frequency", "units": "Hz"},
+            "dir": {"standard_name": "sea_surface_wave_from_direction", "units": "degree"},
+            "time": {"standard_name": "time"}, "site": {"standard_name": "site", "units": ""},
+            "lon": {"standard_name": "longitude", "units": "degree_east"}, "lat": {"standard_name": "latitude", "units": "degree_north"},
+            "wspd": {"standard_name": "wind_speed", "units": "m s-1"}, "wdir": {"standard_name": "wind_from_direction", "units": "degree"},
+            "dpt": {"standard_name": "sea_floor_depth_below_sea_surface", "units": "m"},
+        }
+        for name, a in std.items():
+            if name in ds.variables:
+                ds[name].attrs.update(a)
+        ds.attrs["source"] = "verif recipe"
     return ds
 
 
@@ -174,4 +197,5 @@ def describe(recipe):
     return (
         f"{dims}|f{recipe['nf']}d{recipe.get('nd', 0)}|{recipe.get('dtype', 'float64')}|"
         f"{recipe.get('data', {}).get('kind', 'peaked')}|{recipe.get('dir', {}).get('order', 'asc')}"
+        f"{'|dirfirst' if recipe.get('dir_first') else ''}"
     )
